@@ -370,6 +370,18 @@ def run(chk, repo):
         pre = [n for n in ast.walk(mi) if isinstance(n, ast.Assign) and n.lineno <= loop_form.lineno]
         fresh_ = False
         src_ok = False
+        # the items may also be collected in a list of their own that becomes the memory afterwards
+        app_ = loop_form.body[1]
+        if not good and isinstance(app_, ast.Expr) and isinstance(app_.value, ast.Call) and isinstance(app_.value.func, ast.Attribute) \
+                and app_.value.func.attr == "append" and isinstance(app_.value.func.value, ast.Name) \
+                and [unparse(a_) for a_ in app_.value.args] == [dv] and srcname == "memory":
+            lname = app_.value.func.value.id
+            inits_ = [a_ for a_ in pre if len(a_.targets) == 1 and unparse(a_.targets[0]) == lname and unparse(a_.value) == "[]"]
+            arm_ = mi.orelse
+            after_ = [st_ for st_ in arm_ if isinstance(st_, ast.Assign) and unparse(st_.targets[0]) == "memory"
+                      and unparse(st_.value) == lname and st_.lineno > loop_form.lineno]
+            if len(inits_) == 1 and len(after_) == 1:
+                good, fresh_, src_ok = True, True, True
         for a_ in pre:
             if len(a_.targets) == 1 and isinstance(a_.targets[0], ast.Tuple) and isinstance(a_.value, ast.Tuple):
                 for t2, v2 in zip(a_.targets[0].elts, a_.value.elts):
@@ -405,73 +417,118 @@ def run(chk, repo):
         if isinstance(p, ast.Assign):
             twname = unparse(p.targets[0])
         comps = [n for n in ast.walk(mi) if isinstance(n, ast.Assign) and unparse(n.targets[0]) == "memory"
-                 and isinstance(n.value, ast.ListComp)]
+                 and isinstance(n.value, ast.ListComp) and n in mi.orelse]
         good = False
         if comps and twname:
             c = comps[-1].value
             g = c.generators[0]
             good = unparse(g.iter) == twname and isinstance(g.target, ast.Tuple) and len(g.target.elts) == 2 \
                 and unparse(c.elt) == unparse(g.target.elts[1]) and not g.ifs
+        if not comps and twname:
+            # L = [] ; for idx, data in tw: L.append(data)   - the same items, in the same order, in a list of their own
+            for lp_ in [n for n in mi.orelse if isinstance(n, ast.For) and unparse(n.iter) == twname and not n.orelse]:
+                if isinstance(lp_.target, ast.Tuple) and len(lp_.target.elts) == 2 and len(lp_.body) == 1 \
+                        and isinstance(lp_.body[0], ast.Expr) and isinstance(lp_.body[0].value, ast.Call) \
+                        and isinstance(lp_.body[0].value.func, ast.Attribute) and lp_.body[0].value.func.attr == "append" \
+                        and isinstance(lp_.body[0].value.func.value, ast.Name) \
+                        and [unparse(a_) for a_ in lp_.body[0].value.args] == [unparse(lp_.target.elts[1])]:
+                    ln_ = lp_.body[0].value.func.value.id
+                    ini_ = [a_ for a_ in mi.orelse[:mi.orelse.index(lp_)] if isinstance(a_, ast.Assign)
+                            and unparse(a_.targets[0]) == ln_ and unparse(a_.value) == "[]"]
+                    if len(ini_) == 1:
+                        comps = [lp_]
+                        good = True
         chk.decide(good, "C04.memory", W("LinearFilter.__call__"),
                    "items kept in order: " + (short(comps[-1]) if comps else "<not found>"),
                    why="memory list must be the data component of the enumerated pairs, in their order", node=mi)
 
     # a short memory is completed with zeros in front of the given items
     chk.rule("C04.memory-pad", "a memory with fewer than lm items is preceded by lm - len(memory) copies of the zero "
-                               "value, as list(zero_pad(memory, n, zero=zero)) (left padding, see C08.zero_pad) or "
-                               "[zero] * n + memory (decision table over short / exact lengths)")
-    try:
-        last_trunc = -1
-        for i_, st in enumerate(mi.orelse):
-            tx_ = unparse(st)
-            if any(k_ in tx_ for k_ in ("takewhile", "islice", "enumerate", "[:lm]")) or (
-                    isinstance(st, ast.Assign) and unparse(st.targets[0]) == "memory" and isinstance(st.value, ast.ListComp)):
-                last_trunc = i_
-        chk.require(last_trunc >= 0, "LinearFilter.__call__: truncation of a given memory not found")
-        tail = list(mi.orelse[last_trunc + 1:])
-        for have, lm_ in ((1, 3), (0, 2), (3, 3), (2, 2)):
-            F = Facts(values={"lm": lm_}, lens={"memory": have})
+                               "value, as list(zero_pad(items, n, zero=zero)) (left padding, see C08.zero_pad) or "
+                               "[zero] * n + items, exactly when it is short (the guard is evaluated for a short and a "
+                               "complete memory; names are resolved through their defining assignments)")
+    pad_sites = []
+    for n_ in [x for st_ in mi.orelse for x in ast.walk(st_)]:
+        if isinstance(n_, ast.Call) and canon_call(mod, n_) in ("lazy_misc:zero_pad", "zero_pad") and len(n_.args) == 2 \
+                and [(k.arg, unparse(k.value)) for k in n_.keywords] == [("zero", "zero")]:
+            pad_sites.append((n_, n_.args[0], n_.args[1]))
+        elif isinstance(n_, ast.BinOp) and isinstance(n_.op, ast.Add) and isinstance(n_.left, ast.BinOp) and isinstance(n_.left.op, ast.Mult) \
+                and "[zero]" in (unparse(n_.left.left), unparse(n_.left.right)):
+            cnt_ = n_.left.right if unparse(n_.left.left) == "[zero]" else n_.left.left
+            pad_sites.append((n_, n_.right, cnt_))
+    if len(pad_sites) != 1:
+        chk.note("C04.memory-pad", W("LinearFilter.__call__"), "%d padding construct(s) recognised in the given-memory arm: the "
+                 "completion of a short memory is not decided" % len(pad_sites))
+    else:
+        site, padded, count = pad_sites[0]
+        defs_ = {}
+        for a_ in [x for st_ in mi.orelse for x in ast.walk(st_)]:
+            if isinstance(a_, ast.Assign) and len(a_.targets) == 1 and isinstance(a_.targets[0], ast.Name) \
+                    and a_.lineno <= site.lineno and a_.value is not site and site not in list(ast.walk(a_.value)):
+                defs_.setdefault(a_.targets[0].id, []).append(a_.value)
+        pname = unparse(padded)
+        Lsym, lm_sym = RF.sym("len_items"), RF.sym("lm")
 
-            def rbm(name, value, F_):
-                F_.forget(name)
-            w = walk(tail, F, "LinearFilter.__call__ memory padding", rebind=rbm)
-            pads = [st for st in w.ran if isinstance(st, ast.Assign) and unparse(st.targets[0]) == "memory"
-                    and unparse(st.value) != "memory"]
-            if have < lm_:
-                ok = len(pads) == 1
-                if ok:
-                    v_ = pads[0].value
-                    count = None
-                    calls_ = [n for n in ast.walk(v_) if isinstance(n, ast.Call) and canon_call(mod, n) in ("lazy_misc:zero_pad", "zero_pad")]
-                    if len(calls_) == 1 and len(calls_[0].args) == 2 and unparse(calls_[0].args[0]) == "memory" \
-                            and [(k.arg, unparse(k.value)) for k in calls_[0].keywords] == [("zero", "zero")] \
-                            and isinstance(v_, ast.Call) and unparse(v_.func) == "list" and v_.args[0] is calls_[0]:
-                        count = calls_[0].args[1]            # zero_pad(seq, left, ...): zeros in front of the items
-                    elif isinstance(v_, ast.BinOp) and isinstance(v_.op, ast.Add) and unparse(v_.right) == "memory" \
-                            and isinstance(v_.left, ast.BinOp) and isinstance(v_.left.op, ast.Mult):
-                        a_, b_ = v_.left.left, v_.left.right
-                        if unparse(a_) == "[zero]":
-                            count = b_
-                        elif unparse(b_) == "[zero]":
-                            count = a_
-                    ok = count is not None
-                    if ok:
-                        try:
-                            env_ = {}
-                            for st in w.ran:
-                                if isinstance(st, ast.Assign) and isinstance(st.targets[0], ast.Name) and st is not pads[0] \
-                                        and unparse(st.value) == "len(memory)":
-                                    env_[st.targets[0].id] = RF.sym("len_memory")
-                            ok = Evaluator(env_).ev(count) == RF.sym("lm") - RF.sym("len_memory")
-                        except Inconclusive:
-                            ok = False
+        def resolve(e_, depth=0):
+            """RF value in terms of lm and the number of items kept"""
+            def hk(ev, name, node):
+                if name == "len" and len(node.args) == 1 and unparse(node.args[0]) == pname:
+                    return Lsym
+                return None
+            env_ = {}
+            for nm_ in {x.id for x in ast.walk(e_) if isinstance(x, ast.Name)}:
+                if nm_ == "lm":
+                    env_[nm_] = lm_sym
+                elif nm_ in defs_ and len(defs_[nm_]) == 1 and depth < 4:
+                    env_[nm_] = resolve(defs_[nm_][0], depth + 1)
+            return Evaluator(env_, call_hook=hk).ev(e_)
+        try:
+            cnt_rf = resolve(count)
+            okc = cnt_rf == lm_sym - Lsym
+        except Inconclusive:
+            okc = None
+        if okc is None:
+            chk.note("C04.memory-pad", W("LinearFilter.__call__"), "padding count %s not interpretable: not decided" % unparse(count))
+        else:
+            chk.decide(okc, "C04.memory-pad", W("LinearFilter.__call__"), "padding count %s = %s" % (unparse(count), cnt_rf.key()),
+                       why="missing items are the zero value: exactly lm - len(items) zeros in front", node=site)
+        # the guard under which the padding runs
+        g_ = site
+        while g_ is not None and not (isinstance(g_, (ast.If, ast.IfExp)) and any(site is x for fld_ in ("body",) for x in (
+                ast.walk(g_.body) if isinstance(g_, ast.IfExp) else [y for s_ in g_.body for y in ast.walk(s_)]))) \
+                and not (isinstance(g_, (ast.If, ast.IfExp)) and any(site is x for x in (
+                    ast.walk(g_.orelse) if isinstance(g_, ast.IfExp) else [y for s_ in g_.orelse for y in ast.walk(s_)]))):
+            g_ = getattr(g_, "_parent", None)
+            if g_ is mi:
+                g_ = None
+        if g_ is None:
+            chk.note("C04.memory-pad", W("LinearFilter.__call__"), "padding is not under a recognisable guard: when it runs is not decided")
+        else:
+            in_body = any(site is x for x in (ast.walk(g_.body) if isinstance(g_, ast.IfExp) else [y for s_ in g_.body for y in ast.walk(s_)]))
+            verdicts = []
+            for have, lmv in ((1, 3), (0, 2), (3, 3), (2, 2)):
+                try:
+                    diff_ok = None
+                    t_ = g_.test
+                    # evaluate the test with every name resolved to a number
+                    def numeric(e_):
+                        return resolve(e_).subst({"lm": RF.const(lmv), "len_items": RF.const(have)})
+                    if isinstance(t_, ast.Compare) and len(t_.ops) == 1:
+                        lv, rv = numeric(t_.left), numeric(t_.comparators[0])
+                        d_ = (lv - rv)
+                        dv = d_.as_int() if hasattr(d_, "as_int") else None
+                        op_ = type(t_.ops[0])
+                        diff_ok = {ast.Lt: dv < 0, ast.LtE: dv <= 0, ast.Gt: dv > 0, ast.GtE: dv >= 0, ast.Eq: dv == 0, ast.NotEq: dv != 0}.get(op_)
+                    verdicts.append((have, lmv, diff_ok))
+                except Inconclusive:
+                    verdicts.append((have, lmv, None))
+            if any(v_[2] is None for v_ in verdicts):
+                chk.note("C04.memory-pad", W("LinearFilter.__call__"), "guard %s of the padding not interpretable: not decided" % unparse(g_.test))
             else:
-                ok = not pads
-            chk.decide(ok, "C04.memory-pad", W("LinearFilter.__call__"),
-                       "%d of %d items given -> %s" % (have, lm_, short(pads[0]) if pads else "kept as it is"),
-                       why="missing items are the zero value: exactly lm - len(memory) zeros in front, nothing when complete", node=mi)
-    except AnalysisError as ex:
-        chk.defer(str(ex))
+                okg = all((v_[2] == in_body) == (v_[0] < v_[1]) for v_ in verdicts)
+                chk.decide(okg, "C04.memory-pad", W("LinearFilter.__call__"), "padding runs exactly when the memory is short: %s" % unparse(g_.test),
+                           why="with %s" % ", ".join("%d of %d items -> %s" % (h_, l_, "padded" if (r_ == in_body) else "kept") for h_, l_, r_ in verdicts),
+                           node=g_)
 
     # ownership of the memory list
     chk.rule("C04.memory-own", "the memory handed to the (lazily started) kernel is a list created inside __call__ on "
@@ -481,6 +538,23 @@ def run(chk, repo):
                 (isinstance(n, ast.Assign) and unparse(n.targets[0]) == "memory" and isinstance(n.value, ast.Call)
                  and unparse(n.value.func) == "list")]
     in_else = [n for n in rebuilds if n in mi.orelse]
+    if not in_else:
+        # the items are collected into a list made in this arm that ends up as the memory (possibly after padding)
+        made_here = {unparse(m_.targets[0]) for m_ in mi.orelse if isinstance(m_, ast.Assign) and len(m_.targets) == 1
+                     and (isinstance(m_.value, (ast.List, ast.ListComp)) or (isinstance(m_.value, ast.Call) and unparse(m_.value.func) == "list"))}
+        for n in mi.orelse:
+            if isinstance(n, ast.Assign) and unparse(n.targets[0]) == "memory" and isinstance(n.value, ast.Name) \
+                    and n.value.id in made_here:
+                in_else.append(n)
+    if not in_else:
+        # memory = L, with L bound to a new list (display / comprehension / list(..)) unconditionally in the same arm
+        for n in mi.orelse:
+            if isinstance(n, ast.Assign) and unparse(n.targets[0]) == "memory" and isinstance(n.value, ast.Name):
+                srcs_ = [m_ for m_ in mi.orelse if isinstance(m_, ast.Assign) and unparse(m_.targets[0]) == n.value.id
+                         and (isinstance(m_.value, (ast.List, ast.ListComp)) or (isinstance(m_.value, ast.Call) and unparse(m_.value.func) == "list"))
+                         and m_.lineno < n.lineno]
+                if len(srcs_) == 1:
+                    in_else.append(n)
     if not in_else:
         for n in mi.orelse:
             if isinstance(n, ast.Assign) and len(n.targets) == 1 and isinstance(n.targets[0], ast.Tuple) \
